@@ -284,19 +284,15 @@ fn pairs_json(b: &[(usize, usize, i64, bool)]) -> Value {
     json!(b.iter().map(|x| json!({"a": x.0, "b": x.1, "d": x.2, "touch": x.3})).collect::<Vec<_>>())
 }
 
-fn in_pool<T: Send, F: FnOnce() -> T + Send>(n: usize, f: F) -> T {
-    rayon::ThreadPoolBuilder::new().num_threads(n).build().expect("pool").install(f)
-}
-
 /// B2: verdict events on constructive scenes under several rayon pool sizes
 pub fn record_geometry(output: &str) {
     quiet_panics();
     let mut out = Out::create(output);
     let mut r = rng(1010);
     let n = if thorough() { 1500 } else { 220 };
-    let pools: Vec<usize> = if thorough() { vec![1, 2, 3, 4, 8, 16] } else { vec![1, 4, 16] };
     let kin = robot();
     for k in 0..n {
+        let pools = pools_for(k, if thorough() { 5 } else { 3 });
         let case = make_case(&mut r, k);
         let q0: Joints = std::array::from_fn(|_| r.gen_range(-1.0..1.0));
         let tj = table_json(&case.table);
@@ -352,7 +348,6 @@ pub fn record_offsets(output: &str) {
     let mut out = Out::create(output);
     let mut r = rng(1414);
     let n = if thorough() { 1200 } else { 160 };
-    let pools: Vec<usize> = if thorough() { vec![1, 2, 4, 8, 16] } else { vec![1, 4, 16] };
     let mut made = 0;
     let mut tries = 0;
     while made < n && tries < n * 30 {
@@ -409,7 +404,7 @@ pub fn record_offsets(output: &str) {
         if body.collides(&initial, kin) { continue; }
         made += 1;
         let class = format!("{}:{}{}", category(&(a.min(b) as u64, a.max(b) as u64)), if moved(a) != moved(b) { "moved-vs-unmoved" } else if moved(a) { "both-moved" } else { "both-unmoved" }, if coupled { ":coupled" } else { "" });
-        for &pool in &pools {
+        for &pool in &pools_for(made, if thorough() { 5 } else { 3 }) {
             let offered = guarded(|| in_pool(pool, || body.non_colliding_offsets(&initial, &from, &to, kin)));
             let mut cands = Vec::new();
             let mut vecs: Vec<Joints> = Vec::new();
